@@ -180,10 +180,14 @@ theorem PrimsA.blockAll {s : St} {i : Nat} {x : Impl} (b : Bool) (hI : I s) (hi 
     I (setImpl s i { x with cells := x.cells.map (fun c => { c with slot := { c.slot with blocked := b } }) }) :=
   h.upd s i x _ x.exec x.deferred trivial hI hi (fun _ => ⟨rfl, Or.inl rfl⟩)
 
-/-- `collect` is built from `invalidateTrackable` and `disconnectCell` plus removals from the owned lists -/
+/-- `collect` is built from `invalidateTrackable`, `disconnectCell` and `dropHandle` plus removals from the
+    owned lists; `hG` is the third `collectStep` branch: the entry `(k, g)` leaves `ownedG`, then the signal
+    object named `g` is destroyed -/
 theorem PrimsA.collect {s : St}
     (hT : ∀ (s : St) p, I s → I { s with ownedT := s.ownedT.filter p })
     (hK : ∀ (s : St) p, I s → I { s with ownedK := s.ownedK.filter p })
+    (hG : ∀ (s : St) k g, I s → (k, g) ∈ s.ownedG →
+      I (dropHandle { s with ownedG := s.ownedG.filter (fun q => q.1 ≠ k) } g))
     (hI : I s) : I (Model.collect s) := by
   refine collect_preserved ?_ s hI
   intro s s' hs hc
@@ -197,8 +201,31 @@ theorem PrimsA.collect {s : St}
       split
       · exact h.disconnectCell _ (hK _ _ hs)
       · exact hK _ _ hs
-    · cases hc
+    · split at hc
+      · rename_i k g hf
+        cases hc
+        exact hG _ k g hs (List.mem_of_find?_eq_some hf)
+      · cases hc
 
 end
+
+/-- `dropHandle` (third branch of `collectStep`) is the same function as the harness's `forceDelG` -/
+theorem dropHandle_eq_forceDelG (s : St) (g : Nat) : dropHandle s g = forceDelG s g := rfl
+
+/-- `delG`, when it does not refuse, is `dropHandle` -/
+theorem delG_eq_dropHandle {s : St} {g : Nat} {h : Handle} (hg : aget s.G g = some h)
+    (hp : (h.everFwd && !h.fl.isTrackable) = false) (ho : s.ownedG.any (fun p => p.2 = g) = false) :
+    stepSimple s (.delG g) = some (dropHandle s g, "ok") := by
+  simp only [stepSimple, dropHandle, hg, hp, ho]
+  cases h.impl <;> simp
+
+/-- the usual way to discharge the `ownedG` branch of `PrimsA.collect`: the predicate does not look at the
+    dropped `ownedG` entries and is preserved by the destruction of a signal object -/
+theorem dropG_of {I : St → Prop}
+    (hG : ∀ (s : St) p, I s → I { s with ownedG := s.ownedG.filter p })
+    (hD : ∀ (s : St) g, I s → I (forceDelG s g)) :
+    ∀ (s : St) k g, I s → (k, g) ∈ s.ownedG →
+      I (dropHandle { s with ownedG := s.ownedG.filter (fun q => q.1 ≠ k) } g) :=
+  fun s _ g hs _ => hD _ g (hG s _ hs)
 
 end Sigc.Inv
